@@ -58,8 +58,10 @@ def nontrivial(request, impl):
     if proto == "semi":
         # non-trivial: a semicolon was written
         return parts[3] == "1"
-    if proto in ("hangop", "fieldkey"):
+    if proto in ("hangop", "fieldkey", "punct"):
         return True
+    if proto == "endtoken":
+        return any(x[0] in "LB" for x in parts[3].split(";"))
     if proto == "sortreq":
         # non-trivial: sorting enabled and at least two require/GetService items
         return parts[2] == "1" and (parts[3].count(":r:") + parts[3].count(":g:")) >= 2
@@ -206,11 +208,11 @@ TRIVIA_RULE = ("ring 2 (`semi`): seeded statement pairs A;B - A one of 6 kinds w
 PROPS["C03"] = {
     "lean_modules": ["StyluaModel.Props.C03"],
     "theorem_prefix": "C03_",
-    "required_theorems": ["C03_load", "C03_text_line", "C03_text_block", "C03_paren_partial", "C03_sort_perm", "C03_eof_comments", "C03_semi_required", "C03_semi_removed", "C03_semi_removed_needs_newline", "C03_semi_swallow_witness", "C03_hang_binop", "C03_hang_binop_fuses_witness", "C03_field_key", "C03_field_key_name_partial", "C03_field_key_name_loses_key_trailing"],
+    "required_theorems": ["C03_load", "C03_text_line", "C03_text_block", "C03_paren_partial", "C03_sort_perm", "C03_eof_comments", "C03_semi_required", "C03_semi_removed", "C03_semi_removed_needs_newline", "C03_semi_swallow_witness", "C03_hang_binop", "C03_hang_binop_fuses_witness", "C03_field_key", "C03_field_key_name_partial", "C03_field_key_name_loses_key_trailing", "C03_end_token", "C03_punct_comma"],
     "hx": [["c03"], ["pipe"], ["slots"], ["c12"], ["progen"]],
     "level": "proof",
-    "level_text": "Proof, partial: load_token_trivia (through which every token's trivia passes) keeps every comment once, in order, with kind and level, text normalised only by trim_end / newline conversion (theorems for lists of any length); the parenthesis transplant carries a sublist (full preservation is proven false of the code: counterexample theorem); require sorting is a permutation; the trivia of a kept, added or dropped semicolon (format_block) carries every comment of the statement and of the semicolon once and in order - given the statement's trailing trivia ends with its newline, and with the same-line swallowing by a trailing line comment exhibited as a computed witness (D23 family); hang_binop gathers the comments around a hung operator once and in order (with the fusing of a trailing comment into a preceding line comment as a computed witness); the comments around a table field's key and `=` are all moved in front of a bracketed key, and all but those behind the key for a name key (proved partial statement + witness: D29, whose mechanism - Node::surrounding_trivia on a one-token node - the correspondence exposed). That every construct routes every token through these functions is carried by the comment-slot enumeration (every token gap of 46 constructs) and the corpus census, whose unchanged-tree failures are listed exactly.",
-    "level_note": "Trusted: Lean kernel; Model/Trivia.lean tied by the `trivia` correspondence (~1.4e4 requests per run), Model/Semi.lean by the `semi` correspondence (the bytes between a statement and its successor, for 6 statement kinds x comments before / after the semicolon x required or not x both line endings; ~3e3 distinct requests); census oracle uses full_moon's tokenizer on input and output. Model/HangOp.lean (hang_binop: comments in front of / behind a hung operator and in front of its right operand) by the `hangop` correspondence (6 operators x 0-2 comments per slot x nesting x both line endings; ~4e3 distinct requests, bytes between the operands). Model/HangOp.lean `FieldKey` (comments around a table field's key and `=`; name and bracketed keys) by the `fieldkey` correspondence (~4e3 distinct requests, bytes in front of the key). The other transplant sites (commas of argument lists, call sugar, field separators) have no model yet: they are covered by ring 3 only.",
+    "level_text": "Proof, partial: load_token_trivia (through which every token's trivia passes) keeps every comment once, in order, with kind and level, text normalised only by trim_end / newline conversion (theorems for lists of any length); the parenthesis transplant carries a sublist (full preservation is proven false of the code: counterexample theorem); require sorting is a permutation; the trivia of a kept, added or dropped semicolon (format_block) carries every comment of the statement and of the semicolon once and in order - given the statement's trailing trivia ends with its newline, and with the same-line swallowing by a trailing line comment exhibited as a computed witness (D23 family); hang_binop gathers the comments around a hung operator once and in order (with the fusing of a trailing comment into a preceding line comment as a computed witness); the comments around a table field's key and `=` are all moved in front of a bracketed key, and all but those behind the key for a name key (proved partial statement + witness: D29, whose mechanism - Node::surrounding_trivia on a one-token node - the correspondence exposed); format_end_token keeps every comment in front of a closing token while removing the blank lines. That every construct routes every token through these functions is carried by the comment-slot enumeration (every token gap of 46 constructs) and the corpus census, whose unchanged-tree failures are listed exactly.",
+    "level_note": "Trusted: Lean kernel; Model/Trivia.lean tied by the `trivia` correspondence (~1.4e4 requests per run), Model/Semi.lean by the `semi` correspondence (the bytes between a statement and its successor, for 6 statement kinds x comments before / after the semicolon x required or not x both line endings; ~3e3 distinct requests); census oracle uses full_moon's tokenizer on input and output. Model/HangOp.lean (hang_binop: comments in front of / behind a hung operator and in front of its right operand) by the `hangop` correspondence (6 operators x 0-2 comments per slot x nesting x both line endings; ~4e3 distinct requests, bytes between the operands). Model/HangOp.lean `FieldKey` (comments around a table field's key and `=`; name and bracketed keys) by the `fieldkey` correspondence (~4e3 distinct requests, bytes in front of the key). Model/EndToken.lean (format_end_token: comments and blank lines in front of `end` / a closing token of do, while, for, function and if blocks) by the `endtoken` correspondence (~3e3 distinct requests). Model/HangOp.lean `Punct` (format_punctuated_multiline: the comma of a one-value-per-line list in `return` and local assignments) by the `punct` correspondence (~4e3 distinct requests). The other transplant sites (argument lists of calls, call sugar, field separators) have no model yet: they are covered by ring 3 only.",
     "technique": "Lean 4 proofs on the trivia loader + comment-slot enumeration + census oracle",
     "rule": TRIVIA_RULE + PIPE_RULE + SLOT_RULE,
     "trusted_base": ["comment census: multiset of (kind, level, text) with line comments trimmed at the end and CRLF->LF inside block comments"],
@@ -220,7 +222,7 @@ PROPS["C03"] = {
 PROPS["C10"] = {
     "lean_modules": ["StyluaModel.Props.C10"],
     "theorem_prefix": "C10_",
-    "required_theorems": ["C10_created_ws", "C10_line_comment_clean", "C10_block_lf", "C10_block_crlf", "C10_eof_one_newline"],
+    "required_theorems": ["C10_created_ws", "C10_line_comment_clean", "C10_block_lf", "C10_block_crlf", "C10_eof_one_newline", "C10_end_token_no_blank"],
     "hx": [["c03"], ["pipe"], ["slots"]],
     "level": "proof",
     "level_text": "Proof, partial: the trivia loader never copies input whitespace (every whitespace token it returns is a created newline / indent / single space), a formatted line comment or shebang never ends in whitespace (no stray CR from CRLF input), block-comment and long-string interiors contain only the configured ending (given no lone CR). That all ~150 sites that build whitespace use these constructors is carried by the whitespace scan of every output of the closed set (corpus in LF/CRLF/mixed x both endings x both indent types), not by a theorem.",
@@ -249,7 +251,7 @@ PROPS["C06"] = {
     "lean_modules": ["StyluaModel.Props.C06"],
     "theorem_prefix": "C06_",
     "required_theorems": ["C06_strlit", "C06_number", "C06_semicolon", "C06_sort", "C06_comment_text", "C06_paren_idem", "C06_paren_idem_faithful", "C06_paren_not_idempotent", "C06_table_multi_stable", "C06_table_single_stable", "C06_table_growth_witness", "C06_trivia"],
-    "hx": [["pipe"], ["slots"], ["c05"], ["c06t"]],
+    "hx": [["pipe"], ["slots"], ["c05"], ["c06t"], ["c08"]],
     "level": "proof",
     "level_text": "Proof, partial — the property the technique serves least: idempotence theorems for every decision mechanism that has a model (string and number rewriting, semicolon decisions, sorted require groups, comment text, the leading-trivia loader applied to its own re-tokenised output: blank-line runs, comment lines), and a proven counterexample for the parenthesis rule (`(- -f())`, found by evaluating the model). Whether the second pass takes the same layout path as the first is a fact about Shape arithmetic and ~40 heuristics that are not modelled: it is checked on the closed sets only (corpus x 79 configurations, width sweep 1..130 of catalogue one-liners, comment-slot enumeration), whose unchanged-tree failures are listed exactly.",
     "level_note": "Trusted: Lean kernel; models tied by their own correspondences (C04, C05, C08, C12, C03 protocols); byte comparison format(format(p)) = format(p) on the real library.",
